@@ -877,6 +877,16 @@ func c17Boundaries(c *core.Ctx) {
 		for _, rot := range []int{17, 241, 255} {
 			c17Run(c, leCase{Kind: "meta", Proto: 11, Mode: mode, Half: okHalf, Rot: rot, PLen: 8, ELen: 1})
 		}
+		// the empty segment (both length fields 0) is legal on the wire: every invalid parameter class alone with it
+		for _, h := range []uint32{okHalf &^ (okHalf & -okHalf), heavier, 0, ^uint32(0)} {
+			c.Hist("boundary", "metadata: empty segment x invalid parameter")
+			c17Run(c, leCase{Kind: "meta", Proto: 10, Mode: mode, Half: h, Rot: 0, PLen: 0, ELen: 0})
+		}
+		for _, rot := range []int{17, 241, 255} {
+			c17Run(c, leCase{Kind: "meta", Proto: 11, Mode: mode, Half: okHalf, Rot: rot, PLen: 0, ELen: 0})
+		}
+		c17Run(c, leCase{Kind: "meta", Proto: 10, Mode: mode, Half: okHalf, Rot: 240, PLen: 0, ELen: 0})
+		c17Run(c, leCase{Kind: "meta", Proto: 6, Mode: mode, Half: okHalf, Rot: 0, PLen: 0, ELen: 0})
 		// wrappers: body lengths 1, C, C+1; metadata exact / payloadLen off / extractedLen off / wrong type / short tag
 		for _, n := range []int{1, C, C + 1, 3*C + 2} {
 			ct := c17Fill("count", n+16)
@@ -901,6 +911,7 @@ func c17Boundaries(c *core.Ctx) {
 		c.Hist("boundary", "mode outside 1..4")
 		c17Run(c, leCase{Kind: "roundtrip", Src: "0102030405", Mode: mode, Half: 0x0f0f0f0f, Rot: 0, Pad: 0})
 		c17Run(c, leCase{Kind: "meta", Proto: 10, Mode: mode, Half: 0x0f0f0f0f, Rot: 0, PLen: 8, ELen: 1})
+		c17Run(c, leCase{Kind: "meta", Proto: 10, Mode: mode, Half: 0x0f0f0f0f, Rot: 0, PLen: 0, ELen: 0})
 	}
 	// the document's worked example
 	c17Run(c, leCase{Kind: "roundtrip", Src: "12345678", Mode: 1, Half: 0x0f0f0f0f, Rot: 0, Pad: 0})
